@@ -336,6 +336,19 @@ theorem serve_any_two_chunkings (cfg : Cfg) (F : C06.Framing) (hF : framingOf cf
   obtain ⟨b1, b2, _⟩ := serve_chunking_independent cfg F hF hud w fs hfs c2 h2 hlo hne
   exact ⟨by rw [a2, b2], by rw [a1, b1]⟩
 
+/-- C09 over arbitrary read boundaries: however the request stream is cut, the connection writes exactly one frame per
+    request that the callback answers (none for broadcasts, ignored missing units, unsent listen-only acknowledgements) -/
+theorem serve_one_frame_per_answered_request (cfg : Cfg) (F : C06.Framing) (hF : framingOf cfg.framer = some F)
+    (hud : cfg.frontend ≠ .syncUdp) (w : World)
+    (fs : List (VFrame Req)) (hfs : ∀ f ∈ fs, C06.IsBuilt F decServer (acceptedUnits cfg w.units) w.units.single f)
+    (chunks : List Bytes) (hc : chunks.flatten = stream fs)
+    (hlo : ListenOff cfg w (fs.map (fun f => Ev.deliver f.msg f.uid f.tid f.pid)))
+    (hne : (handleEvents cfg w (fs.map (fun f => Ev.deliver f.msg f.uid f.tid f.pid))).2.2 = none) :
+    (serve cfg (openConn cfg w) w chunks).2.2.1.flatten.length =
+      C09.answered cfg w (fs.map (fun f => Ev.deliver f.msg f.uid f.tid f.pid)) := by
+  rw [(serve_chunking_independent cfg F hF hud w fs hfs chunks hc hlo hne).2.1]
+  exact C09.frames_eq_answered cfg w _ hne
+
 /-- the Twisted hypothesis is needed: with Force Listen Only Mode (FC 8 / sub 4) in the stream, the request behind it is
     served when both arrive in one read and dropped when they arrive in two (the protocol looks at the switch when data
     arrives) -/
